@@ -160,7 +160,7 @@ func (w *Worker) RunEnumCase(ec *EnumCase, property string) *SkelResult {
 		case smt.Unsat:
 			res.VerdictUnsat++
 		case smt.Unknown:
-			if m.S.CheckSecondOpinion(120, "z3-new", "-smt2") == smt.Unsat {
+			if secondLookUnsat(m) {
 				res.VerdictUnsat++
 				res.SecondOpinion++
 				break
